@@ -442,6 +442,47 @@ pub fn big_freelist_history(ps: u64, index: usize) -> Option<History> {
     Some(History { pagesize: ps, num_pages: 8, strict: false, populate: false, txs, origin: format!("big free list: {} keys x {} B values", n_keys, vlen) })
 }
 
+/// Directed family: ONE commit that has to extend the file by more than one 8 MiB allocation step
+/// (and not by a whole number of steps), read back in the same process without reopening, followed
+/// by small commits, a rollback and a second large commit from the already-grown file.
+pub fn big_commit_history(ps: u64, index: usize) -> Option<History> {
+    // (number of values, bytes each) written by the one large transaction
+    let plans: [(usize, usize); 6] = [(12, 1 << 20), (1, 9 * (1 << 20) + 100), (21, 1_000_000), (2600, 4000), (3, 6 * (1 << 20) + 17), (40, 430_000)];
+    if index >= plans.len() {
+        return None;
+    }
+    let (n, len) = plans[index];
+    let ps = if index % 2 == 1 { 4096 } else { ps };
+    let key = |j: usize| K { pre: format!("blob{:05}", j).into_bytes(), fill: 3, post: vec![] };
+    let put = |h: H, j: usize, tag: u64, len: usize| Op::Put { h, k: key(j), v: V { tag, len }, how: How::Slice, vhow: How::Slice };
+    let mut txs = Vec::new();
+    // tx0: a little data so that the big commit starts from a small, non-empty file
+    txs.push(TxScript { ops: vec![Op::TxCreate { k: K::lit(b"blobs"), how: How::Slice }, Op::TxCreate { k: K::lit(b"small"), how: How::Slice }, put(1, 0, 1, 30), put(1, 1, 2, 300)], end: End::Commit, reopen: false });
+    // tx1: the large commit
+    let mut ops = vec![Op::TxGet { k: K::lit(b"blobs"), how: How::Slice }];
+    for j in 0..n {
+        ops.push(put(0, j, 1000 + j as u64, len));
+    }
+    txs.push(TxScript { ops, end: End::Commit, reopen: false });
+    // tx2: small commit on the same handle, tx3: rollback of a large transaction, tx4: read-mostly commit
+    txs.push(TxScript { ops: vec![Op::TxGet { k: K::lit(b"small"), how: How::Slice }, put(0, 2, 3, 50), Op::TxGet { k: K::lit(b"blobs"), how: How::Slice }, Op::Scan { h: 1 }], end: End::Commit, reopen: false });
+    let mut ops = vec![Op::TxGet { k: K::lit(b"blobs"), how: How::Slice }];
+    for j in 0..n.min(16) {
+        ops.push(put(0, 100_000 + j, 5000 + j as u64, len));
+    }
+    txs.push(TxScript { ops, end: End::Rollback, reopen: false });
+    txs.push(TxScript { ops: vec![Op::TxGet { k: K::lit(b"blobs"), how: How::Slice }, Op::Get { h: 0, k: key(0) }, Op::Get { h: 0, k: key(n - 1) }, put(0, 0, 7000, 10)], end: End::Commit, reopen: index % 3 == 0 });
+    // tx5: a second large commit (about 1.6 x the first) on top of the grown file; tx6: delete it all again
+    let mut ops = vec![Op::TxGet { k: K::lit(b"blobs"), how: How::Slice }];
+    for j in 0..(n * 8 / 5).max(2) {
+        ops.push(put(0, 200_000 + j, 9000 + j as u64, len));
+    }
+    txs.push(TxScript { ops, end: End::Commit, reopen: false });
+    txs.push(TxScript { ops: vec![Op::TxDelete { k: K::lit(b"blobs"), how: How::Slice }, Op::TxGet { k: K::lit(b"small"), how: How::Slice }, put(1, 3, 9999, 20)], end: End::Commit, reopen: false });
+    txs.push(TxScript { ops: vec![Op::TxGet { k: K::lit(b"small"), how: How::Slice }, put(0, 4, 10000, 20), Op::TxBuckets], end: End::Commit, reopen: true });
+    Some(History { pagesize: ps, num_pages: 4, strict: false, populate: false, txs, origin: format!("big commit: {} values x {} B in one transaction, page size {}", n, len, ps) })
+}
+
 // ---------------------------------------------------------------------------
 // Directed family: several bucket deletions at different nesting levels in one
 // transaction (child then ancestor, ancestor of a bucket modified or created in
